@@ -61,6 +61,10 @@ def parse_selector_list(text):
     return out
 
 
+import re as _re
+_PSEUDO_PARENT = _re.compile(r"^([^&()]*:(?:not|is|where|matches))\(&\)([^&()]*)$")
+
+
 def contains_parent(cx):
     return any("&" in t for t in cx)
 
@@ -85,6 +89,12 @@ def resolve(sel_text, parent, implicit_parent=True):
             if "&" not in tok:
                 news = [n + [tok] for n in news]
                 continue
+            m = _PSEUDO_PARENT.match(tok)
+            if m:
+                # `&` as the whole argument of a selector pseudo-class: replaced by the complete parent list (one
+                # result, no cross product)
+                news = [n + [m.group(1) + "(" + ", ".join(_cx_text(p) for p in parent) + ")" + m.group(2)] for n in news]
+                continue
             if tok.count("&") != 1 or not tok.startswith("&"):
                 raise Unsupported("& not leading in compound")
             suffix = tok[1:]
@@ -95,6 +105,10 @@ def resolve(sel_text, parent, implicit_parent=True):
                     if last in (">", "+", "~"):
                         raise Unsupported("parent ends with combinator")
                     if suffix[0].isalnum() or suffix[0] in "-_":
+                        if last[-1] in ")]":
+                            # an identifier suffix cannot be appended to a pseudo with arguments or an attribute
+                            # selector (Sass rejects it: "Invalid parent selector"); not judged here
+                            raise Unsupported("suffix on non-name simple")
                         # `&-s`: appended to the last simple selector's name
                         resolved.append(p[:-1] + [last + suffix])
                     else:
